@@ -198,3 +198,41 @@ Section ProofIndependent.
     unfold keep_out in *. rewrite F in G. rewrite G in G'. inversion G'. reflexivity.
   Qed.
 End ProofIndependent.
+
+(* ==================================================================== *)
+(* Induction principle for the nested type of kinds                      *)
+Section KindInd.
+  Variable P : kind -> Prop.
+  Hypothesis HString : P KString.
+  Hypothesis HPtrString : P KPtrString.
+  Hypothesis HPtrInt : P KPtrInt.
+  Hypothesis HPtrBool : P KPtrBool.
+  Hypothesis HUint64 : P KUint64.
+  Hypothesis HPtrTime : P KPtrTime.
+  Hypothesis HStruct : forall fs, Forall (fun f => P (fd_kind f)) fs -> P (KStruct fs).
+  Hypothesis HPtrStruct : forall fs, Forall (fun f => P (fd_kind f)) fs -> P (KPtrStruct fs).
+  Hypothesis HSliceString : P KSliceString.
+  Hypothesis HSliceStruct : forall fs, Forall (fun f => P (fd_kind f)) fs -> P (KSliceStruct fs).
+  Hypothesis HAny : P KAny.
+  Hypothesis HMapAny : P KMapAny.
+  Hypothesis HSliceAny : P KSliceAny.
+  Hypothesis HRaw : P KRaw.
+  Hypothesis HCustom : forall c, P (KCustom c).
+  Hypothesis HRec : forall n, P (KRec n).
+  Fixpoint kind_ind' (k : kind) : P k :=
+    let go := (fix go (fs : list fdesc) : Forall (fun f => P (fd_kind f)) fs :=
+                 match fs with
+                 | [] => Forall_nil _
+                 | FD g key o k' :: t => Forall_cons (FD g key o k') (kind_ind' k') (go t)
+                 end) in
+    match k with
+    | KString => HString | KPtrString => HPtrString | KPtrInt => HPtrInt | KPtrBool => HPtrBool
+    | KUint64 => HUint64 | KPtrTime => HPtrTime
+    | KStruct fs => HStruct fs (go fs)
+    | KPtrStruct fs => HPtrStruct fs (go fs)
+    | KSliceString => HSliceString
+    | KSliceStruct fs => HSliceStruct fs (go fs)
+    | KAny => HAny | KMapAny => HMapAny | KSliceAny => HSliceAny | KRaw => HRaw
+    | KCustom c => HCustom c | KRec n => HRec n
+    end.
+End KindInd.
